@@ -101,7 +101,9 @@ claim("C10", "Coq invariant proof over the chunk-event state machine (owner/wind
 claim("C15", "Coq refusal lemmas per decoder lifted through the loader factorisation (framing + assembly) + feature-switch run at every position",
       "Theorems C15_propagation (a successful load implies every visited chunk was accepted by its decoder) and one loader-level theorem per feature "
       "(C15_pixel_ratio, C15_color_depth, C15_layer_type, C15_blend_mode, C15_cel_type, C15_bits_per_tile, C15_anim_direction, C15_icc_profile, C15_fixed_gamma, "
-      "C15_profile_type, C15_external_tileset): if the header or any visited chunk uses the feature, load is not Ok, wherever the chunk sits; the check re-proves "
+      "C15_profile_type, C15_external_tileset): if the header or any visited chunk uses the feature, load is not Ok, wherever the chunk sits; for whole serialised "
+      "programs C15_program_refused (Props/C15_e2e.v): a well-formed program outside sprite_ok_ts - the exact load condition of C01_load_serialize_iff - is answered "
+      "with an error value, whatever bytes follow it (non-vacuity: C15_program_refused_example, a tile id at the tile count); the check re-proves "
       "them and switches each feature on at every position of generated sprites.",
       "Modelled, not verified: framing and decoder models against src/parse.rs and the chunk parsers.",
       "DESIGN.md section 5, C15")
